@@ -1439,7 +1439,7 @@ Definition e_inp : input :=
               mkIStop [0%Z] 0%Z [] None 7%Z []]
           [mkIVehicle (Some [1%Z]) [0%Z] 0%Z None None None None None [] 0%Z true true]
           [mkIUnit [0] []; mkIUnit [1] []; mkIUnit [2] []]
-          e_mat e_mat 1 w_opts.
+          e_mat e_mat 1 w_opts [].
 Definition e_gi : ginput := mkGInput e_inp [[1; 0]] [[]].
 Definition e_gid : nat := 3.
 (* stop 0 in front of the last stop (4), then stop 1 in front of the last stop *)
@@ -1455,7 +1455,7 @@ Definition e_s3 : state := Eval vm_compute in fst (gop_step e_gi e_s2 (GUnplanGr
 
 Lemma e_wf : wf_input e_inp.
 Proof.
-  split; [|split].
+  split; [|split; [|split; [|exact (Forall_nil _)]]].
   - vm_compute. repeat (constructor; [simpl; lia|]). constructor.
   - intros x. vm_compute. lia.
   - intros u Hu. vm_compute in Hu. destruct Hu as [<-|[<-|[<-|[]]]]; discriminate.
